@@ -150,7 +150,17 @@ func checkTrackerAfterFilter(r *Run, p *packages.Package) {
 				construct := funcDeclName(fd) + ":" + fn.Name() + "#" + itoa(nth)
 				// the conditions under which the call is evaluated
 				lits := append(controlConds(scope, call), shortCircuitConds(scope, call)...)
-				accepted := false
+				// every filter applied in this scope must have accepted the node (or be absent) where the tracker is asked
+				var cur types.Object
+				filterObjOf := func(c *ast.CallExpr) types.Object {
+					switch t := ast.Unparen(c.Fun).(type) {
+					case *ast.Ident:
+						return info.Uses[t]
+					case *ast.SelectorExpr:
+						return info.Uses[t.Sel]
+					}
+					return nil
+				}
 				var holds func(e ast.Expr, neg bool) bool
 				holds = func(e ast.Expr, neg bool) bool {
 					e = ast.Unparen(e)
@@ -182,19 +192,27 @@ func checkTrackerAfterFilter(r *Run, p *packages.Package) {
 								case *ast.SelectorExpr:
 									id = o.Sel
 								}
-								if id != nil && filterVars[info.Uses[id]] {
+								if id != nil && info.Uses[id] == cur {
 									return (t.Op == token.EQL) != neg
 								}
 							}
 						}
 					case *ast.CallExpr:
-						return !neg && isFilterCall(t)
+						return !neg && isFilterCall(t) && filterObjOf(t) == cur
 					}
 					return false
 				}
-				for _, l := range lits {
-					if holds(l.Expr, l.Neg) {
-						accepted = true
+				accepted := true
+				for fv := range filterVars {
+					cur = fv
+					one := false
+					for _, l := range lits {
+						if holds(l.Expr, l.Neg) {
+							one = true
+						}
+					}
+					if !one {
+						accepted = false
 					}
 				}
 				if accepted {
